@@ -210,3 +210,31 @@ Qed.
 Theorem decode_unknown_type t payload :
   existsb (N.eqb t) commandTypes = false -> decodeCommand (commandVersion :: t :: payload) = DecErr DEC_INVALID.
 Proof. intro H. cbn [decodeCommand]. rewrite N.eqb_refl, H. reflexivity. Qed.
+
+Theorem decode_encode_fence h t :
+  h <= 65535 -> u64_ok t ->
+  decodeCommand (encodeEnterFence h t) = DecFence h t.
+Proof.
+  intros Hh Ht. assert (Hh64 : u64_ok h) by (unfold u64_ok; lia).
+  assert (Hc : (65535 <? h) = false) by (apply N.ltb_ge; exact Hh).
+  unfold encodeEnterFence. cbn [app decodeCommand].
+  vm_compute (negb (commandVersion =? commandVersion)). cbn iota.
+  vm_compute (negb (existsb (N.eqb cmdTypeEnterFence) commandTypes)). cbn iota.
+  vm_compute (cmdTypeEnterFence =? cmdTypeApplyDelta).
+  vm_compute (cmdTypeEnterFence =? cmdTypeEnterFence). cbn iota.
+  unfold decodeEnterFence, tlv_u64.
+  rewrite (fields_of_cons _ _ _ (put_u64_len h)).
+  destruct (t =? 0) eqn:T0.
+  - apply N.eqb_eq in T0. subst t. rewrite fields_of_nil.
+    cbn [fold_opt]. unfold fence_step.
+    vm_compute (tagEnterFenceHashSlot =? tagEnterFenceHashSlot). cbn iota.
+    rewrite (u64_field_put h Hh64), Hc. reflexivity.
+  - replace (tlv tagEnterFenceTarget (put_u64 t)) with (tlv tagEnterFenceTarget (put_u64 t) ++ []) by apply app_nil_r.
+    rewrite (fields_of_cons _ _ _ (put_u64_len t)), fields_of_nil.
+    cbn [fold_opt]. unfold fence_step at 1.
+    vm_compute (tagEnterFenceHashSlot =? tagEnterFenceHashSlot). cbn iota.
+    rewrite (u64_field_put h Hh64), Hc. cbn [fold_opt]. unfold fence_step.
+    vm_compute (tagEnterFenceTarget =? tagEnterFenceHashSlot).
+    vm_compute (tagEnterFenceTarget =? tagEnterFenceTarget). cbn iota.
+    rewrite (u64_field_put t Ht). reflexivity.
+Qed.
